@@ -8,7 +8,7 @@ THEOREMS = ["SCP.C15." + t for t in "fixed_idempotent printed_reads_back readPar
 RULE = ("value classes per kind: numbers (rounding ties, 0, negatives, 10^k +- 1, up to 10^15, tiny fractions), percentages, money in every currency "
         "that has an alias or symbol the reader knows (from config.json: TRY USD SEK DKK BGN EUR; negative amounts), durations (1-7 parts of every "
         "unit, carry boundaries, en and tr), times with every 2-4 letter zone class, dates (full and current-year form, every month, en and tr), "
-        "all 33 units x amounts, based integers (hex / octal / binary up to 2^60) x separator conventions (',' '.'), ('.' ','), ('.' ''), (',' '') "
+        "all 33 units x amounts, dates in the years 1-150 reached by subtracting years, based integers (hex / octal / binary up to 2^60, hex digits that contain 0B0 / 0B1 / 0E / 0D) x separator conventions (',' '.'), ('.' ','), ('.' ''), (',' '') "
         "x number / percentage digit configurations (0-4 digits, remove-zero and rounding flags) ; oracle: the printed form of the line, entered "
         "as a new line under the same configuration and language, prints identically; non-trivial = printed form differs from the entered text; "
         "distinct = distinct (configuration, language, text)")
@@ -84,11 +84,20 @@ def gen_case(rng, dec, this_year):
         lang = rng.choice(["en", "tr"])
         y = rng.choice([this_year, this_year, rng.randint(1, 9999), rng.randint(1900, 2100)])
         m, d = rng.randint(1, 12), rng.randint(1, 28)
+        if rng.random() < 0.15:
+            # a date in the years 1 .. 150 reached by arithmetic
+            y = rng.randint(1900, 2100)
+            back = y - rng.randint(1, 150)
+            return lang, f"{d}/{m}/{y} - {back} {'years' if lang == 'en' else 'yıl'}", "date"
         return lang, f"{d}/{m}/{y}", "date"
     if k < 0.94:
         u = rng.choice(units)
         return lang, f"{numlit(rng, dec)} {u}", "unit"
     n = rng.randint(0, 2 ** rng.randint(1, 60))
+    if rng.random() < 0.25:
+        # printed hexadecimal digits that spell another literal prefix inside: 0B0 / 0B1 (binary), 0E.., 0D..
+        hx = lambda k: "".join(rng.choice("0123456789abcdef") for _ in range(k))
+        return lang, "0x" + (hx(rng.randint(0, 4)).lstrip("0") or "1") + rng.choice(["0b0", "0b1", "0b11", "0b10", "0e1", "0d1", "0b"]) + hx(rng.randint(0, 4)), "based"
     return lang, rng.choice([hex(n), oct(n), bin(n)]), "based"
 
 
